@@ -66,6 +66,10 @@ def py_block(stmts) -> list:
 	for s in stmts:
 		if isinstance(s, ast.Assign) and len(s.targets) == 1 and isinstance(s.targets[0], ast.Name):
 			out.append(('assign', s.targets[0].id, py_expr(s.value)))
+		elif isinstance(s, ast.Assign) and len(s.targets) == 1 and isinstance(s.targets[0], ast.Tuple) and all(isinstance(x, ast.Name) for x in s.targets[0].elts) \
+				and isinstance(s.value, ast.Tuple) and len(s.value.elts) == len(s.targets[0].elts):
+			# the right-hand side is evaluated completely before any name is bound
+			out.append(('multi', [x.id for x in s.targets[0].elts], [py_expr(v) for v in s.value.elts]))
 		elif isinstance(s, ast.AnnAssign) and isinstance(s.target, ast.Name) and s.value is not None:
 			out.append(('assign', s.target.id, py_expr(s.value)))
 		elif isinstance(s, ast.AugAssign) and isinstance(s.target, ast.Name) and type(s.op) in PY_BIN:
@@ -388,6 +392,29 @@ class CppParser:
 
 	def statement(self):
 		t = self.peek()
+		if t == 'auto' and self.peek(1) == '[':
+			self.eat(); self.eat('[')
+			names = []
+			while self.peek() != ']':
+				names.append(self.eat())
+				if self.peek() == ',':
+					self.eat()
+			self.eat(']')
+			self.eat('=')
+			if self.eat() != 'std::tuple':
+				raise Unsupported('structured binding from something that is not a tuple literal')
+			self.eat('<')
+			types = []
+			while self.peek() != '>':
+				types.append(self.eat())
+				if self.peek() == ',':
+					self.eat()
+			self.eat('>')
+			values = self.init_list()[1]
+			self.eat(';')
+			if len(values) != len(names) or len(types) != len(names):
+				raise Unsupported('structured binding arity')
+			return ('multi', names, values, types)
 		if t == 'if':
 			self.eat()
 			self.eat('(')
